@@ -69,6 +69,9 @@ func c08Gen(r *rand.Rand, tier string) any {
 				t.Refs[k].Val = valueSpec{Kind: kinds[r.IntN(len(kinds))], V: r.IntN(40)}
 			}
 		}
+		if r.IntN(8) == 0 {
+			t.Refs = append(t.Refs, refSpec{Kind: "dag", Val: valueSpec{Kind: "int", V: r.IntN(40)}})
+		}
 		if r.IntN(6) == 0 && t.Form == "decorator" {
 			// a mutable default value that the body itself changes: the values the function
 			// references differ after every execution while the project stays loaded
@@ -123,7 +126,16 @@ func c08Exec(scAny any, c *simcheck.Ctx) *simcheck.Violation {
 	step := 0
 	run := func(what string) (*procResult, *simcheck.Violation) {
 		step++
-		res := h.build(step, &opSpec{Op: "build", Label: "//:all"}, h.pc, nil)
+		pc := h.pc
+		pc.WatchdogS = 30
+		res := h.build(step, &opSpec{Op: "build", Label: "//:all"}, pc, nil)
+		if res.Sim.Stuck {
+			// a load and build of a handful of targets takes milliseconds; half a minute of
+			// real time with the baton never coming back means a computation that does not end
+			v := simcheck.V("fingerprint-hang", "%s: loading and building did not finish within 30 s of real time (fingerprinting or comparing environments does not terminate)", what)
+			v.Fatal = true
+			return res, v
+		}
 		if v := procFailure(res); v != nil {
 			if v.Class == "panic" {
 				return res, simcheck.V("fingerprint-crash", "%s: %s", what, v.Msg)
